@@ -23,6 +23,13 @@ Theorem C19_sorted_neighbours_pairwise : forall l,
 Proof. exact sorted_neighbours_pairwise. Qed.
 Print Assumptions C19_sorted_neighbours_pairwise.
 
+(* what the pairwise clause of valid_spec means, by positions: any two distinct occurrences *)
+Theorem C19_pairwise_meaning : forall (R : sop -> sop -> Prop) l,
+  ForallOrdPairs R l <->
+  (forall x y a b, (x < y)%nat -> nth_error l x = Some a -> nth_error l y = Some b -> R a b).
+Proof. exact (@FOP_nth sop). Qed.
+Print Assumptions C19_pairwise_meaning.
+
 (* makespan = latest end time over all operations when valid, absent otherwise *)
 Theorem C19_makespan : forall i s,
   wf_instance i = true -> result_ok i s = true -> keys_nodup s -> inst_jobs i <> [] ->
